@@ -1,3 +1,4 @@
+pub mod adj;
 pub mod conc;
 pub mod fuzz;
 pub mod map;
@@ -15,6 +16,7 @@ pub fn dispatch(t: &[&str]) -> String {
         "conc.run" => conc::run(t),
         "ram.parse" | "ram.wf" => ram::run(t),
         "sv.seq" | "sv.corr" => sv::run(t),
+        "adj.run" => adj::run(t),
         _ => "bad-op".into(),
     }
 }
